@@ -584,37 +584,101 @@ func concSchedules(seed uint64) []schedule {
 		return "reader=" + clipS(res), viols
 	}})
 	// ---- C06: visibility only once durable ----
-	for _, at := range []string{"write", "sync"} {
-		at := at
-		out = append(out, schedule{name: "visible-only-once-durable/" + at, props: []string{"C06", "C10"}, run: func() (string, []Violation) {
-			e, err := newConcEnv(4096, 3)
-			if err != nil {
-				return "setup-err", nil
-			}
-			defer e.close()
-			steps := []string{"3 entries", "StoreLogs(4,5) observed from inside the VFS " + at + " call, before it takes effect"}
-			var seenLast uint64
-			var seenGet string
-			var once sync.Once
-			e.d.Before = func(ev *simfs.Event) {
-				if ev.Kind == at {
-					once.Do(func() {
-						seenLast, _ = e.w.LastIndex()
-						seenGet = readOutcome(e.w, 4)
-					})
+	// a reader looks at the log from inside EVERY VFS write and fsync the append performs (before the call takes effect):
+	// until the append's last fsync has returned, nothing of the batch may be visible. Variants: an ordinary append, an
+	// append that fills (seals) the segment, and both with the last fsync failing (the failed batch must stay invisible).
+	for _, sealing := range []bool{false, true} {
+		for _, failLast := range []bool{false, true} {
+			sealing, failLast := sealing, failLast
+			name := fmt.Sprintf("visible-only-once-durable/sealing=%v/fail-last-fsync=%v", sealing, failLast)
+			out = append(out, schedule{name: name, props: []string{"C06", "C10"}, run: func() (string, []Violation) {
+				segSize := 4096
+				if sealing {
+					segSize = 600
 				}
-			}
-			err = e.w.StoreLogs([]*raft.Log{{Index: 4, Term: 1, Data: []byte("four")}, {Index: 5, Term: 1, Data: []byte("five")}})
-			e.d.Before = nil
-			var viols []Violation
-			if err != nil {
-				return "store-err", nil
-			}
-			if seenLast != 3 || !strings.HasPrefix(seenGet, "err notfound") {
-				viols = append(viols, v("C06", "entries of a batch were visible to readers before the batch was durable", fmt.Sprintf("LastIndex=%d GetLog(4)=%s", seenLast, seenGet), steps...)...)
-			}
-			return fmt.Sprintf("during-%s: last=%d get4=%s", at, seenLast, clipS(seenGet)), viols
-		}})
+				e, err := newConcEnv(segSize, 3)
+				if err != nil {
+					return "setup-err", nil
+				}
+				defer e.close()
+				payload := []byte("four")
+				if sealing {
+					payload = bytes.Repeat([]byte("4"), 700) // fills the 600-byte segment
+				}
+				steps := []string{fmt.Sprintf("3 entries, segment size %d", segSize), fmt.Sprintf("StoreLogs(4,5) (first entry %d bytes) observed from inside every VFS write and fsync of the call, before it takes effect", len(payload))}
+				if failLast {
+					steps = append(steps, "the last fsync of the call fails")
+				}
+				var mu sync.Mutex
+				var seen []string
+				nsync := 0
+				// count the fsyncs of a dry run to know which one is the last
+				total := 0
+				if failLast {
+					e2, err := newConcEnv(segSize, 3)
+					if err != nil {
+						return "setup-err", nil
+					}
+					e2.d.Before = func(ev *simfs.Event) {
+						if ev.Kind == "sync" && strings.HasSuffix(ev.Name, ".wal") {
+							total++
+						}
+					}
+					e2.w.StoreLogs([]*raft.Log{{Index: 4, Term: 1, Data: payload}, {Index: 5, Term: 1, Data: []byte("five")}})
+					e2.d.Before = nil
+					e2.close()
+					wal.SetVerifYield(e.p.hit)
+				}
+				_ = total
+				inCall := int32(1)
+				e.d.Before = func(ev *simfs.Event) {
+					if atomic.LoadInt32(&inCall) == 0 || !strings.HasSuffix(ev.Name, ".wal") || (ev.Kind != "write" && ev.Kind != "sync") {
+						return
+					}
+					last, _ := e.w.LastIndex()
+					get := readOutcome(e.w, 4)
+					mu.Lock()
+					seen = append(seen, fmt.Sprintf("%s: LastIndex=%d GetLog(4)=%s", ev.Kind, last, clipS(get)))
+					mu.Unlock()
+				}
+				if failLast {
+					e.d.Fault = func(kind string, call int, name string) *simfs.FaultAction {
+						if kind == "sync" && strings.HasSuffix(name, ".wal") {
+							nsync++
+							if nsync == total {
+								return &simfs.FaultAction{}
+							}
+						}
+						return nil
+					}
+				}
+				err = e.w.StoreLogs([]*raft.Log{{Index: 4, Term: 1, Data: payload}, {Index: 5, Term: 1, Data: []byte("five")}})
+				atomic.StoreInt32(&inCall, 0)
+				e.d.Before = nil
+				e.d.Fault = nil
+				var viols []Violation
+				for _, sn := range seen {
+					if !strings.Contains(sn, "LastIndex=3 ") || !strings.Contains(sn, "GetLog(4)=err notfound") {
+						viols = append(viols, v("C06", "entries of a batch were visible to readers before the batch was durable", sn, steps...)...)
+						break
+					}
+				}
+				after, _ := e.w.LastIndex()
+				if failLast {
+					if err == nil {
+						return "store-unexpectedly-ok", nil
+					}
+					if after != 3 {
+						det := fmt.Sprintf("StoreLogs returned %v, LastIndex=%d (acknowledged: 3)", err, after)
+						viols = append(viols, v("C10", "entries of a failed StoreLogs are visible to readers", det, steps...)...)
+						viols = append(viols, v("C06", "entries of a batch that never became durable are visible to readers", det, steps...)...)
+					}
+				} else if err != nil {
+					return "store-err", nil
+				}
+				return fmt.Sprintf("probes=%d after=%d", len(seen), after), viols
+			}})
+		}
 	}
 	return out
 }
@@ -1049,6 +1113,62 @@ func stableConcReal(rounds int) (calls int, viols []Violation) {
 			add("log operations or writes to other keys altered a stable key", fmt.Sprintf("Get(big): err=%v len=%d", err, len(cur)))
 		}
 	}
+	// the key space: every one-byte key and keys that look like the meta store's own names must be ordinary stable keys —
+	// log activity (rotations, truncations: meta commits) never alters them and they never alter the log
+	{
+		var keys [][]byte
+		for b := 0; b < 256; b++ {
+			keys = append(keys, []byte{byte(b)})
+		}
+		for _, k := range []string{"wal-meta", "stable", "meta", "m\x00", "CurrentTerm", "LastVoteTerm", "LastVoteCand"} {
+			keys = append(keys, []byte(k))
+		}
+		val := func(k []byte, gen int) []byte { return []byte(fmt.Sprintf("value-%d-of-%x", gen, k)) }
+		for _, k := range keys {
+			if err := w.Set(k, val(k, 0)); err != nil {
+				add("Set failed", fmt.Sprintf("key %x: %v", k, err))
+			}
+		}
+		first, _ := w.FirstIndex()
+		last, _ := w.LastIndex()
+		next := last + 1
+		for round := 0; round < 4; round++ {
+			var logs []*raft.Log
+			for j := 0; j < 6; j++ {
+				logs = append(logs, &raft.Log{Index: next, Term: 2, Data: bytes.Repeat([]byte{byte(next)}, 900)})
+				next++
+			}
+			w.StoreLogs(logs)
+			w.DeleteRange(math.MaxUint64, math.MaxUint64)
+		}
+		if first > 0 {
+			w.DeleteRange(first, first+2)
+		}
+		check := func(when string, gen int) {
+			for _, k := range keys {
+				got, err := w.Get(k)
+				if err != nil || !bytes.Equal(got, val(k, gen)) {
+					add("a stable key does not hold the value of its latest Set after log activity", fmt.Sprintf("%s: key %x (%q): want %q, got %q err=%v", when, k, k, val(k, gen), clipS(string(got)), err),
+						"Set of every one-byte key and of keys named like the meta store's buckets", "appends with rotations, a head truncation", "Get of every key")
+					return
+				}
+			}
+		}
+		check("after appends, rotations and a truncation", 0)
+		for _, k := range keys {
+			w.Set(k, val(k, 1))
+		}
+		l2, _ := w.LastIndex()
+		w.Close()
+		if w = open(); w == nil {
+			return
+		}
+		check("after re-setting every key, Close and Open", 1)
+		if l3, err := w.LastIndex(); err != nil || l3 != l2 {
+			add("stable writes altered the log", fmt.Sprintf("LastIndex %d before, %d after Close/Open (err=%v)", l2, l3, err))
+		}
+		calls += 2 * len(keys)
+	}
 	const G = 6
 	final := make([]uint64, G)
 	finalB := make([]string, G)
@@ -1275,6 +1395,7 @@ func poolStress(seed uint64, iters int) (reads int, viols []Violation) {
 						ops := append(desc, fmt.Sprintf("%d goroutines reading random indexes concurrently, no writer, no truncation", G))
 						viols = append(viols, Violation{Property: "C06", What: "an entry that stays in the log was not returned intact to a concurrent reader", Detail: det, Ops: ops})
 						viols = append(viols, Violation{Property: "C12", What: "GetLog returned something other than the stored entry while other reads reused pooled buffers", Detail: det, Ops: ops})
+						viols = append(viols, Violation{Property: "C15", What: "entries around the 64 KiB read buffer are not read back identically", Detail: det, Ops: ops})
 					}
 					vmu.Unlock()
 					return
